@@ -48,6 +48,8 @@ def parse_type(t) -> Any:
 def _type_of_node(node) -> Any:
     if isinstance(node, ast.Name):
         n = node.id
+        if n == 'bv64':
+            return 'bv64'
         if n in ('int',):
             return 'int'
         if n in ('bool',):
@@ -67,6 +69,9 @@ def _type_of_node(node) -> Any:
         base = node.value.id if isinstance(node.value, ast.Name) else getattr(node.value, 'attr', '')
         if base in ('List', 'list', 'Deque', 'deque', 'Sequence', 'Iterable'):
             return ('list', _type_of_node(node.slice))
+        if base in ('Dict', 'dict', 'Mapping'):
+            k, v = node.slice.elts
+            return ('dict', _type_of_node(k), _type_of_node(v))
         if base in ('Tuple', 'tuple'):
             elts = node.slice.elts if isinstance(node.slice, ast.Tuple) else [node.slice]
             return ('tuple', tuple(_type_of_node(e) for e in elts))
@@ -80,7 +85,13 @@ def _type_of_node(node) -> Any:
 def type_key(t) -> str:
     if isinstance(t, str):
         return t
+    if t[0] == 'rec':
+        return 'rec<%s>' % ','.join('%s:%s' % (n, type_key(x)) for n, x in t[1])
     return '%s<%s>' % (t[0], ','.join(type_key(x) for x in (t[1] if t[0] == 'tuple' else t[1:])))
+
+
+def rec_type(**fields):
+    return ('rec', tuple((n, parse_type(t)) for n, t in fields.items()))
 
 
 def sort_of(t):
@@ -94,6 +105,8 @@ def sort_of(t):
         return z3.StringSort()
     if t == 'U':
         return U
+    if t == 'bv64':
+        return z3.BitVecSort(64)
     k = type_key(t)
     if k in _DT_CACHE:
         return _DT_CACHE[k]
@@ -107,6 +120,10 @@ def sort_of(t):
         s = dt.create()
     elif t[0] == 'array':
         s = z3.ArraySort(sort_of(t[1]), sort_of(t[2]))
+    elif t[0] == 'rec':
+        dt = z3.Datatype('Rec_' + k)
+        dt.declare('mk', *[(n, sort_of(x)) for n, x in t[1]])
+        s = dt.create()
     else:
         raise Undecided('type %r' % (t,))
     _DT_CACHE[k] = s
@@ -145,9 +162,22 @@ class SRecord:
     def __init__(self, cls, fields=None):
         self.cls = cls
         self.fields: Dict[str, Any] = dict(fields or {})
+        self.rtype = None
 
     def clone(self):
-        return SRecord(self.cls, dict(self.fields))
+        r = SRecord(self.cls, dict(self.fields))
+        r.rtype = getattr(self, 'rtype', None)
+        return r
+
+
+class SDict:
+    """a symbolic dict: insertion-ordered item list + lookup function + membership predicate (kept consistent by wf facts)"""
+
+    def __init__(self, items, kt, vt, val, has):
+        self.items = items  # SList of ('tuple', (kt, vt))
+        self.kt, self.vt = kt, vt
+        self.val = val  # z3 Function K -> V
+        self.has = has  # z3 Function K -> Bool
 
 
 class SDotted:
@@ -194,6 +224,17 @@ class PyRaise(Exception):
 
 def to_z3(v, t=None):
     """encode a Python-level value as a z3 term of sort_of(t) (t may be None for scalars)"""
+    if t == 'bv64':
+        if isinstance(v, bool):
+            return z3.BitVecVal(int(v), 64)
+        if isinstance(v, int):
+            return z3.BitVecVal(v, 64)
+        if isinstance(v, z3.ExprRef) and z3.is_bv(v):
+            return v
+        if isinstance(v, z3.ExprRef) and z3.is_int(v):
+            return z3.Int2BV(v, 64)
+        if isinstance(v, z3.ExprRef) and z3.is_bool(v):
+            return z3.If(v, z3.BitVecVal(1, 64), z3.BitVecVal(0, 64))
     if isinstance(v, bool):
         if t == 'int':
             return z3.IntVal(int(v))
@@ -210,6 +251,13 @@ def to_z3(v, t=None):
         return z3.StringVal(v)
     if isinstance(v, SFrac):
         return v.term
+    if isinstance(v, SRecord) and (t is not None and isinstance(t, tuple) and t[0] == 'rec' or getattr(v, 'rtype', None) is not None):
+        tt = t if (t is not None and isinstance(t, tuple) and t[0] == 'rec') else v.rtype
+        return sort_of(tt).mk(*[to_z3(v.fields[n], tx) for n, tx in tt[1]])
+    if t == 'bv64' and isinstance(v, int) and not isinstance(v, bool):
+        return z3.BitVecVal(v, 64)
+    if t == 'bv64' and isinstance(v, z3.ExprRef) and z3.is_int(v):
+        return z3.Int2BV(v, 64)
     if isinstance(v, SList):
         tt = t or ('list', v.et)
         if v.et is None:
@@ -244,12 +292,23 @@ def from_z3(term, t):
     if isinstance(t, tuple) and t[0] == 'tuple':
         s = sort_of(t)
         return tuple(from_z3(s.accessor(0, i)(term), tx) for i, tx in enumerate(t[1]))
+    if isinstance(t, tuple) and t[0] == 'rec':
+        s = sort_of(t)
+        r = SRecord('rec', {n: from_z3(s.accessor(0, i)(term), tx) for i, (n, tx) in enumerate(t[1])})
+        r.rtype = t
+        return r
     return term
 
 
 def type_of_value(v):
     if isinstance(v, SFrac):
         return 'real'
+    if isinstance(v, SRecord) and getattr(v, 'rtype', None) is not None:
+        return v.rtype
+    if isinstance(v, SRecord):
+        return ('rec', tuple((n, type_of_value(x)) for n, x in v.fields.items()))
+    if isinstance(v, z3.ExprRef) and z3.is_bv(v):
+        return 'bv64'
     if isinstance(v, bool):
         return 'bool'
     if isinstance(v, int):
@@ -294,6 +353,8 @@ def _type_of_sort(s):
         return 'U'
     if s == z3.StringSort():
         return 'str'
+    if z3.is_bv_sort(s):
+        return 'bv64'
     raise Undecided('unknown sort %s' % s)
 
 
@@ -302,6 +363,23 @@ def _parse_key(k):
     def p(i):
         for base in ('int', 'bool', 'real', 'str', 'U'):
             if k.startswith(base, i) and (i + len(base) == len(k) or k[i + len(base)] in ',>'):
+                return base, i + len(base)
+        if k.startswith('rec<', i):
+            i2 = i + 4
+            items = []
+            while True:
+                j = k.index(':', i2)
+                nm = k[i2:j]
+                t, i2 = p(j + 1)
+                items.append((nm, t))
+                if k[i2] == ',':
+                    i2 += 1
+                else:
+                    break
+            assert k[i2] == '>'
+            return ('rec', tuple(items)), i2 + 1
+        for base in ('bv64',):
+            if k.startswith(base, i):
                 return base, i + len(base)
         for base in ('list', 'tuple', 'array'):
             if k.startswith(base + '<', i):
@@ -330,6 +408,15 @@ def fresh_value(t, base):
         return SList(z3.Int(fresh_name(base + '.len')), z3.Const(fresh_name(base + '.arr'), z3.ArraySort(z3.IntSort(), sort_of(t[1]))), t[1])
     if isinstance(t, tuple) and t[0] == 'tuple':
         return tuple(fresh_value(tx, '%s.%d' % (base, i)) for i, tx in enumerate(t[1]))
+    if isinstance(t, tuple) and t[0] == 'rec':
+        r = SRecord('rec', {n: fresh_value(tx, '%s.%s' % (base, n)) for n, tx in t[1]})
+        r.rtype = t
+        return r
+    if isinstance(t, tuple) and t[0] == 'dict':
+        items = fresh_value(('list', ('tuple', (t[1], t[2]))), base + '.items')
+        val = z3.Function(fresh_name(base + '.val'), sort_of(t[1]), sort_of(t[2]))
+        has = z3.Function(fresh_name(base + '.has'), sort_of(t[1]), z3.BoolSort())
+        return SDict(items, t[1], t[2], val, has)
     return z3.Const(fresh_name(base), sort_of(t))
 
 
@@ -345,6 +432,17 @@ def wf_constraints(v) -> List[Any]:
     if isinstance(v, tuple):
         for x in v:
             out.extend(wf_constraints(x))
+    if isinstance(v, SDict):
+        it = v.items
+        out.append(it.len >= 0)
+        i, j = z3.Int(fresh_name('d_i')), z3.Int(fresh_name('d_j'))
+        ts = sort_of(it.et)
+        key = lambda x: ts.accessor(0, 0)(z3.Select(it.arr, x))
+        valx = lambda x: ts.accessor(0, 1)(z3.Select(it.arr, x))
+        out.append(z3.ForAll([i], z3.Implies(z3.And(i >= 0, i < it.len), z3.And(v.has(key(i)), v.val(key(i)) == valx(i)))))
+        out.append(z3.ForAll([i, j], z3.Implies(z3.And(0 <= i, i < j, j < it.len), key(i) != key(j))))
+        k = z3.Const(fresh_name('d_k'), sort_of(v.kt))
+        out.append(z3.ForAll([k], z3.Implies(v.has(k), z3.Exists([i], z3.And(i >= 0, i < it.len, key(i) == k)))))
     return out
 
 
@@ -409,8 +507,7 @@ def find_function(tree: ast.AST, qualname: str):
         found = None
         for ch in ast.walk(node) if node is tree and False else _direct_defs(node):
             if isinstance(ch, (ast.FunctionDef, ast.AsyncFunctionDef, ast.ClassDef)) and ch.name == p:
-                found = ch
-                break
+                found = ch  # the last definition wins (typing.overload stubs precede the implementation)
         if found is None:
             raise Undecided('anchor-moved: %s not found' % qualname)
         node = found
@@ -1201,10 +1298,14 @@ class Engine:
                 return v
             if z3.is_int(v) or z3.is_real(v):
                 return v != 0
+            if z3.is_bv(v):
+                return v != 0
             if v.sort() == z3.StringSort():
                 return z3.Length(v) > 0
             if v.sort() == U:
                 return self.uf('truthy', ['U'], 'bool')(v)
+        if isinstance(v, SDict):
+            return v.items.len > 0
         if isinstance(v, SRecord):
             return z3.BoolVal(True)
         if isinstance(v, SFrac):
@@ -1247,7 +1348,7 @@ class Engine:
             if name in self.c.consts:
                 return self.c.consts[name]
             return SDotted(name)
-        if isinstance(base, (SList, tuple)) or (isinstance(base, z3.ExprRef) and base.sort() != U):
+        if isinstance(base, (SList, tuple, SDict)) or (isinstance(base, z3.ExprRef) and base.sort() != U):
             return ('boundmethod', base, attr)
         if isinstance(base, SExc):
             if base.term is not None:
@@ -1276,6 +1377,9 @@ class Engine:
         for v in node.values:
             t = self.truthy(self.ev(v, s2))
             vals.append(t)
+            ts = z3.simplify(t)
+            if (isinstance(node.op, ast.And) and z3.is_false(ts)) or (isinstance(node.op, ast.Or) and z3.is_true(ts)):
+                break  # decided by a concrete operand: Python does not evaluate the rest
             s2.pc.append(t if isinstance(node.op, ast.And) else z3.Not(t))
         return z3.And(*vals) if isinstance(node.op, ast.And) else z3.Or(*vals)
 
@@ -1358,6 +1462,8 @@ class Engine:
                 return z3.If(v, z3.IntVal(1), z3.IntVal(0))
             if z3.is_int(v) or z3.is_real(v):
                 return v
+            if z3.is_bv(v):
+                return z3.BV2Int(v)
         raise Undecided('not a number: %r' % (v,))
 
     def equal(self, a, b):
@@ -1388,6 +1494,12 @@ class Engine:
         raise Undecided('equality between %s and %s' % (type_key(ta), type_key(tb)))
 
     def contains(self, cont, x, st):
+        if isinstance(cont, SDict):
+            return cont.has(to_z3(x, cont.kt))
+        if isinstance(cont, SRecord) and isinstance(x, str):
+            if 'has_' + x in cont.fields:
+                return self.truthy(cont.fields['has_' + x])
+            return z3.BoolVal(x in cont.fields)
         if isinstance(cont, dict):
             cont = tuple(cont.keys())
         if isinstance(cont, (tuple, frozenset, list)) and not (cont and cont[0] == 'range'):
@@ -1431,6 +1543,16 @@ class Engine:
             return a + b
         if isinstance(op, ast.Add) and isinstance(a, str) and isinstance(b, str):
             return a + b
+        if (isinstance(a, z3.ExprRef) and z3.is_bv(a)) or (isinstance(b, z3.ExprRef) and z3.is_bv(b)):
+            ab, bb = to_z3(a, 'bv64') if not (isinstance(a, z3.ExprRef) and z3.is_bv(a)) else a, to_z3(b, 'bv64') if not (isinstance(b, z3.ExprRef) and z3.is_bv(b)) else b
+            if isinstance(a, z3.ExprRef) and z3.is_bool(a):
+                ab = z3.If(a, z3.BitVecVal(1, 64), z3.BitVecVal(0, 64))
+            if isinstance(b, z3.ExprRef) and z3.is_bool(b):
+                bb = z3.If(b, z3.BitVecVal(1, 64), z3.BitVecVal(0, 64))
+            ops = {ast.BitOr: lambda: ab | bb, ast.BitAnd: lambda: ab & bb, ast.BitXor: lambda: ab ^ bb, ast.LShift: lambda: ab << bb, ast.RShift: lambda: z3.LShR(ab, bb), ast.Add: lambda: ab + bb, ast.Sub: lambda: ab - bb}
+            if type(op) in ops:
+                return ops[type(op)]()
+            raise Undecided('operator %s on bit-vectors' % type(op).__name__)
         az, bz = self.num(a), self.num(b)
         ka, kb = self.numkind(a), self.numkind(b)
         if 'frac' in (ka, kb) or 'float' in (ka, kb) or isinstance(op, ast.Div):
@@ -1456,6 +1578,8 @@ class Engine:
                 raise Undecided('true division (float) without float_as_real')
             return z3.ToReal(az) / z3.ToReal(bz) if z3.is_int(az) and z3.is_int(bz) else (z3.ToReal(az) if z3.is_int(az) else az) / (z3.ToReal(bz) if z3.is_int(bz) else bz)
         if isinstance(op, ast.LShift):
+            if self.c.consts.get('__shift_as_bv__') and isinstance(a, int) and not isinstance(a, bool):
+                return z3.BitVecVal(a, 64) << z3.Int2BV(bz, 64)
             return az * self.pow2(bz, st, node)
         if isinstance(op, ast.RShift):
             return self.floordiv(az, self.pow2(bz, st, node), st, node)
@@ -1563,7 +1687,11 @@ class Engine:
                 else:
                     parts.append(self.list_of([self.ev(e, st)]))
             return self.concat(parts)
-        return self.list_of([self.ev(e, st) for e in node.elts])
+        vals = [self.ev(e, st) for e in node.elts]
+        kinds = {type_key(type_of_value(v)) for v in vals}
+        if len(kinds) > 1 or any(v is None for v in vals):
+            return tuple(vals)  # a fixed-size heterogeneous list literal is a tuple (positional record)
+        return self.list_of(vals)
 
     def list_of(self, vals, et=None):
         et = et or type_of_value(vals[0])
@@ -1583,6 +1711,11 @@ class Engine:
         return self.index(cont, idx, st, node)
 
     def index(self, cont, idx, st, node=None):
+        if isinstance(cont, SDict):
+            k = to_z3(idx, cont.kt)
+            if not getattr(self, 'in_spec', False) and node is not None:
+                self.oblige(st, 'safety/key-present@L%d' % getattr(node, 'lineno', 0), cont.has(k), kind='safety')
+            return from_z3(cont.val(k), cont.vt)
         if isinstance(cont, SRecord) and isinstance(idx, str):
             if idx in cont.fields:
                 return cont.fields[idx]
@@ -1664,7 +1797,10 @@ class Engine:
         raise Undecided('starred expression')
 
     def ev_Dict(self, node, st):
-        raise Undecided('dict display')
+        if not all(isinstance(k, ast.Constant) and isinstance(k.value, str) for k in node.keys):
+            raise Undecided('dict display with non-literal keys')
+        r = SRecord('dict', {k.value: self.ev(v, st) for k, v in zip(node.keys, node.values)})
+        return r
 
     # ---- calls
     def ev_Call(self, node, st):
@@ -1697,6 +1833,12 @@ class Engine:
                 self.in_spec = was
             rng = z3.And(i >= 0, i < it.len)
             return z3.ForAll([i], z3.Implies(rng, body)) if fname == 'all' else z3.Exists([i], z3.And(rng, body))
+        if fname == 'bit' and len(node.args) == 2:
+            x = self.ev(node.args[0], st)
+            b = self.ev(node.args[1], st)
+            xb = x if (isinstance(x, z3.ExprRef) and z3.is_bv(x)) else to_z3(x, 'bv64')
+            bb = b if (isinstance(b, z3.ExprRef) and z3.is_bv(b)) else to_z3(b, 'bv64')
+            return z3.Extract(0, 0, z3.LShR(xbv_(xb), bb)) == z3.BitVecVal(1, 1)
         if fname == 'implies':
             a, b = [self.truthy(self.ev(x, st)) for x in node.args]
             return z3.Implies(a, b)
@@ -1805,6 +1947,8 @@ class Engine:
         args = [self.ev(a, st) for a in node.args]
         if name == 'len':
             v = args[0]
+            if isinstance(v, SDict):
+                return v.items.len
             if isinstance(v, SList):
                 return v.len
             if isinstance(v, tuple):
@@ -1937,6 +2081,36 @@ class Engine:
             if meth == 'clear':
                 self.assign(target, SList(z3.IntVal(0), recv.arr, recv.et), st)
                 return None
+        if isinstance(recv, SDict):
+            if meth == 'items':
+                return recv.items
+            if meth == 'keys':
+                i = z3.Int(fresh_name('keys_i'))
+                ts = sort_of(recv.items.et)
+                return SList(recv.items.len, z3.Lambda([i], ts.accessor(0, 0)(z3.Select(recv.items.arr, i))), recv.kt)
+            if meth == 'get' and args:
+                k = to_z3(args[0], recv.kt)
+                dflt = args[1] if len(args) > 1 else None
+                if dflt is None:
+                    raise Undecided('dict.get with a None default on a symbolic dict')
+                return from_z3(z3.If(recv.has(k), recv.val(k), to_z3(dflt, recv.vt)), recv.vt)
+        if isinstance(recv, SRecord) and meth == 'get' and args and isinstance(args[0], str):
+            k = args[0]
+            dflt = args[1] if len(args) > 1 else None
+            if k not in recv.fields:
+                return dflt
+            v = recv.fields[k]
+            if 'has_' + k in recv.fields:
+                h = self.truthy(recv.fields['has_' + k])
+                if z3.is_true(z3.simplify(h)):
+                    return v
+                if z3.is_false(z3.simplify(h)):
+                    return dflt
+                if dflt is None:
+                    raise Undecided('.get(%r) with a None default on an optional field' % k)
+                t = type_of_value(v)
+                return from_z3(z3.If(h, to_z3(v, t), to_z3(dflt, t)), t)
+            return v
         key = '.' + meth
         if key in self.c.calls:
             kw = {k.arg: self.ev(k.value, st) for k in node.keywords}
@@ -1951,6 +2125,10 @@ class Engine:
 
 # ---------------------------------------------------------------------------------------------
 # helpers
+
+
+def xbv_(x):
+    return x
 
 
 def _anchor_match(anchor, text):
